@@ -242,7 +242,8 @@ LeafIds(t) == IF t.op \in {"probe", "cold"} THEN <<t.a>> ELSE IF t.in = <<>> THE
               LET RECURSIVE Cat(_) Cat(i) == IF i > Len(t.in) THEN <<>> ELSE LeafIds(t.in[i]) \o Cat(i + 1) IN Cat(1)
 Resubscriber(t) == t.op \in {"retry", "retry_when"} \/ (t.op = "flat_map" /\ t.f = "probe2") \/ (t.op = "on_error_resume_next" /\ t.f = "probe2")
 UsesProbe2(t) == (t.op = "flat_map" /\ t.f = "probe2") \/ (t.op = "on_error_resume_next" /\ t.f = "probe2")
-NoSubj(t) == t.op \notin {"subject", "rawsubject", "conn", "ready_set_go"} /\ \A i \in 1..Len(t.in) : NoSubj(t.in[i])
+\* (switch_on_next is specific to this crate and no listed property defines it: it is exercised by C01/C05/C06/C07/C17 only)
+NoSubj(t) == t.op \notin {"subject", "rawsubject", "conn", "ready_set_go", "switch_on_next"} /\ \A i \in 1..Len(t.in) : NoSubj(t.in[i])
 ResubDepth(t) == LET d == IF t.in = <<>> THEN 0 ELSE LET S == { ResubDepth(t.in[i]) : i \in 1..Len(t.in) } IN CHOOSE x \in S : \A y \in S : y <= x
                  IN d + (IF Resubscriber(t) THEN 1 ELSE 0)
 AnyProbe2(t) == UsesProbe2(t) \/ \E i \in 1..Len(t.in) : AnyProbe2(t.in[i])
